@@ -1,5 +1,5 @@
-// Package tlsmatrix: the real TLS configurations in real handshakes (C19).
-package tlsmatrix
+// Package pki: an in-process certificate factory for the TLS engines.
+package pki
 
 import (
 	"crypto/ecdsa"
@@ -15,19 +15,19 @@ import (
 	"time"
 )
 
-type cred struct {
-	name     string
-	certPath string
-	keyPath  string
-	tlsCert  *tls.Certificate // nil = present no certificate
+type Cred struct {
+	Name     string
+	CertPath string
+	KeyPath  string
+	TLSCert  *tls.Certificate // nil = present no certificate
 }
 
-type pki struct {
-	dir              string
-	ca1Path, ca2Path string
-	ca1Pool          *x509.CertPool
-	creds            map[string]*cred
-	order            []string
+type PKI struct {
+	Dir              string
+	CA1Path, CA2Path string
+	CA1Pool          *x509.CertPool
+	Creds            map[string]*Cred
+	Order            []string
 }
 
 func mkKey() *ecdsa.PrivateKey {
@@ -60,8 +60,8 @@ func writePEM(path, typ string, der []byte) {
 	pem.Encode(f, &pem.Block{Type: typ, Bytes: der})
 }
 
-func newPKI(dir string) *pki {
-	p := &pki{dir: dir, creds: map[string]*cred{}}
+func New(dir string) *PKI {
+	p := &PKI{Dir: dir, Creds: map[string]*Cred{}}
 	now := time.Now()
 	mkCA := func(cn, file string) (*x509.Certificate, *ecdsa.PrivateKey, string) {
 		k := mkKey()
@@ -74,9 +74,9 @@ func newPKI(dir string) *pki {
 	}
 	ca1, k1, path1 := mkCA("verif CA 1", "ca1.pem")
 	ca2, k2, path2 := mkCA("verif CA 2", "ca2.pem")
-	p.ca1Path, p.ca2Path = path1, path2
-	p.ca1Pool = x509.NewCertPool()
-	p.ca1Pool.AddCert(ca1)
+	p.CA1Path, p.CA2Path = path1, path2
+	p.CA1Pool = x509.NewCertPool()
+	p.CA1Pool.AddCert(ca1)
 	leaf := func(name string, parent *x509.Certificate, signer *ecdsa.PrivateKey, mod func(*x509.Certificate)) {
 		k := mkKey()
 		t := &x509.Certificate{Subject: pkix.Name{CommonName: name}, NotBefore: now.Add(-time.Hour), NotAfter: now.Add(12 * time.Hour),
@@ -97,8 +97,8 @@ func newPKI(dir string) *pki {
 		if err != nil {
 			panic(err)
 		}
-		p.creds[name] = &cred{name: name, certPath: cp, keyPath: kp, tlsCert: &tc}
-		p.order = append(p.order, name)
+		p.Creds[name] = &Cred{Name: name, CertPath: cp, KeyPath: kp, TLSCert: &tc}
+		p.Order = append(p.Order, name)
 	}
 	leaf("valid-ca1", ca1, k1, nil)
 	leaf("valid-ca1-second", ca1, k1, nil)
@@ -111,7 +111,7 @@ func newPKI(dir string) *pki {
 	leaf("wrong-name-ca1", ca1, k1, func(t *x509.Certificate) { t.DNSNames = []string{"other.test"} })
 	// a self-signed certificate that copies CA1's subject (name match without key match)
 	leaf("self-signed-ca1-subject", nil, nil, func(t *x509.Certificate) { t.Subject = pkix.Name{CommonName: "verif CA 1"} })
-	p.creds["none"] = &cred{name: "none"}
-	p.order = append(p.order, "none")
+	p.Creds["none"] = &Cred{Name: "none"}
+	p.Order = append(p.Order, "none")
 	return p
 }
